@@ -62,7 +62,7 @@ def make_values(vkind, n, nullpat=None):
     raise ValueError(vkind)
 
 
-def nullable(vkind): return vkind in ("float", "float32", "intnull", "datetime", "timedelta")
+def nullable(vkind): return vkind in ("float", "float32", "intnull", "intarrow", "datetime", "timedelta")
 
 
 def null_patterns(vkind, n):
